@@ -405,6 +405,16 @@ impl<R: Clone + 'static> ThreadLocalCache<R> {
         });
     }
 
+    /// Removes a key from the cache and from an order queue the caller has already borrowed.
+    ///
+    /// The eviction paths run while the order queue is mutably borrowed, so they must not go
+    /// through [`Self::remove_key`], which would borrow the same `RefCell` a second time.
+    fn remove_key_with_order(&self, order: &mut VecDeque<String>, key: &str) {
+        self.cache.with(|c| {
+            remove_key_from_cache_local(&mut c.borrow_mut(), order, key);
+        });
+    }
+
     /// Handles the eviction of entries from a cache to enforce the entry limit based on the specified eviction policy.
     ///
     /// This method ensures that the number of entries in the cache does not exceed the configured limit by removing
@@ -458,7 +468,7 @@ impl<R: Clone + 'static> ThreadLocalCache<R> {
                             .with(|c| find_min_frequency_key(&c.borrow(), order));
 
                         if let Some(evict_key) = min_freq_key {
-                            self.remove_key(&evict_key);
+                            self.remove_key_with_order(order, &evict_key);
                         }
                     }
                     EvictionPolicy::ARC => {
@@ -467,7 +477,7 @@ impl<R: Clone + 'static> ThreadLocalCache<R> {
                             .with(|c| find_arc_eviction_key(&c.borrow(), order.iter().enumerate()));
 
                         if let Some(key) = evict_key {
-                            self.remove_key(&key);
+                            self.remove_key_with_order(order, &key);
                         }
                     }
                     EvictionPolicy::TLRU => {
@@ -481,7 +491,7 @@ impl<R: Clone + 'static> ThreadLocalCache<R> {
                         });
 
                         if let Some(key) = evict_key {
-                            self.remove_key(&key);
+                            self.remove_key_with_order(order, &key);
                         }
                     }
                     EvictionPolicy::Random => {
@@ -582,7 +592,7 @@ impl<R: Clone + 'static + crate::MemoryEstimator> ThreadLocalCache<R> {
                                 .cache
                                 .with(|c| find_min_frequency_key(&c.borrow(), &order));
                             if let Some(evict_key) = min_freq_key {
-                                self.remove_key(&evict_key);
+                                self.remove_key_with_order(&mut order, &evict_key);
                                 true
                             } else {
                                 false
@@ -593,7 +603,7 @@ impl<R: Clone + 'static + crate::MemoryEstimator> ThreadLocalCache<R> {
                                 find_arc_eviction_key(&c.borrow(), order.iter().enumerate())
                             });
                             if let Some(key) = evict_key {
-                                self.remove_key(&key);
+                                self.remove_key_with_order(&mut order, &key);
                                 true
                             } else {
                                 false
@@ -609,7 +619,7 @@ impl<R: Clone + 'static + crate::MemoryEstimator> ThreadLocalCache<R> {
                                 )
                             });
                             if let Some(key) = evict_key {
-                                self.remove_key(&key);
+                                self.remove_key_with_order(&mut order, &key);
                                 true
                             } else {
                                 false
